@@ -189,7 +189,7 @@ func c20Run(ci any) Result {
 		e.Pre(func(next echo.HandlerFunc) echo.HandlerFunc { return func(ctx echo.Context) error { return next(ctx) } })
 	}
 	// the URL travels as a server would parse it: URL.Path decoded, URL.RawPath = the text as sent (when they differ)
-	rServeRec(e, &cur, rReq{Method: rt.Method, Path: url, Raw: len(url)%2 == 0, Host: onHost})
+	rServeRec(e, &cur, rReq{Method: rt.Method, Path: url, Raw: len(url)%2 == 0, Host: onHost, Parsed: (len(url)+c.Idx)%4 == 1})
 	res := Result{
 		Ops: wJoin(rTableWire(routes), wInt(c.Idx), wStrs(c.Args)),
 		Obs: wJoin(wStr(url), cur.wire()),
@@ -306,8 +306,25 @@ func rServeRec(e *echo.Echo, cur *rObs, q rReq) {
 	}
 }
 
+// named-parameter values: every one non-empty and without '/', so inside the property's quantifier.  c20Values: plain
+// ones, numbers (passed as numbers), colons, percent signs, UTF-8, the table's own literals; c20ValuesRare: dots (the
+// dot segments `.` and `..`, look-alikes of them, hidden-file names), percent-encoded dots, upper/lower case twins,
+// characters that "path hardening" code tends to treat specially (`;` `~` space, a trailing dot, combining marks)
 var c20Values = []string{"a", "ab", "7", "18446744073709551615", "9223372036854775808", "-9223372036854775808", "4294967295", "1.5", "true", "x.y", "a:b", ":", "%41", "%2F", "a%2Fb", "a%2fb%2F", "{x}", "a|b", "a+b", "a%00b", "\xc3\xa9", "a b", "*", "new", "users", "-", "a\\b"}
+var c20ValuesRare = []string{".", "..", "...", ".hidden", "a..", "..a", "a.", "%2e", "%2E%2E", ".%2e", "A", "Ab", "USERS", "a;b", ";", "~a", "a%20b", "\xc3\x89", "e\xcc\x81"}
+
+// wildcard values (arbitrary).  c20Wild: empty, slashes, a file path, colon, UTF-8; c20WildRare: slashes at either end
+// and doubled, dot segments at the start / in the middle / at the end, percent-encoded ones, case twins
 var c20Wild = []string{"", "a", "a/b", "/", "a/b/c.txt", "x:y", "%2e%2e", "\xc3\xa9/\xc3\xa9", "*", "//"}
+var c20WildRare = []string{".", "..", "./main.css", "css/../main.css", "a/b/..", "a/./b", "../x", "a/..", "../..", "a/", "/a", "a//b", ".hidden/x", "a/.../b", "a/%2e%2e/b", "A/B", "a/b/.", "a/;x/b"}
+
+// c20Pick: two thirds from the common list, one third from the rare one
+func c20Pick(r *rand.Rand, common, rare []string) string {
+	if r.Intn(3) == 0 {
+		return rare[r.Intn(len(rare))]
+	}
+	return common[r.Intn(len(common))]
+}
 
 func c20Gen(r *rand.Rand, tier string) []any {
 	tables, per := 600, 10
@@ -348,7 +365,7 @@ func c20Gen(r *rand.Rand, tier string) []any {
 					if own {
 						args = append(args, segs[r.Intn(len(segs))])
 					} else {
-						args = append(args, c20Values[r.Intn(len(c20Values))])
+						args = append(args, c20Pick(r, c20Values, c20ValuesRare))
 					}
 				case 'a':
 					if own {
@@ -358,7 +375,7 @@ func c20Gen(r *rand.Rand, tier string) []any {
 						}
 						args = append(args, tl+[]string{"", "/42", "/a/b"}[r.Intn(3)])
 					} else {
-						args = append(args, c20Wild[r.Intn(len(c20Wild))])
+						args = append(args, c20Pick(r, c20Wild, c20WildRare))
 					}
 				}
 			}
@@ -375,13 +392,95 @@ func c20Gen(r *rand.Rand, tier string) []any {
 				}
 			}
 			cs := &c20Case{Routes: routes, Idx: idx, Args: args}
-			if len(routes) > 1 && r.Intn(4) == 0 {
-				cs.Warm = 1 + r.Intn(len(routes)-1)
+			if r.Intn(4) == 0 {
+				cs.Routes, cs.Idx = c20Companions(r, routes, idx, args)
+			}
+			if len(cs.Routes) > 1 && r.Intn(4) == 0 {
+				cs.Warm = 1 + r.Intn(len(cs.Routes)-1)
 			}
 			out = append(out, cs)
 		}
 	}
 	return out
+}
+
+// c20Companions: routes that share text with the URL the case is about to produce, registered before or after the
+// named route: the URL itself, a prefix of it followed by `*`, the URL plus a slash — for ANOTHER method (they never
+// take priority for the route's method, but the search has to get past them) — and a shorter literal for the same
+// method (it splits the nodes of the others).  Returns the new table and the new index of the named route.
+func c20Companions(r *rand.Rand, routes []rRoute, idx int, args []string) ([]rRoute, int) {
+	rt := routes[idx]
+	toks, names, after := rNorm(rt.Path)
+	if after || len(args) != len(names) {
+		return routes, idx
+	}
+	url, ok := rInst(toks, args)
+	if !ok || url == "" || strings.ContainsAny(url, ":*\\") {
+		return routes, idx
+	}
+	other := []string{"POST", "PUT", "GET", "DELETE", "X-CUSTOM"}[r.Intn(5)]
+	if other == rt.Method {
+		other = "PATCH"
+	}
+	cut := func() string { // a prefix of the URL, mostly ending at a slash
+		var at []int
+		for i := 1; i < len(url); i++ {
+			if url[i-1] == '/' {
+				at = append(at, i)
+			}
+		}
+		if len(at) > 0 && r.Intn(4) > 0 {
+			return url[:at[r.Intn(len(at))]]
+		}
+		return url[:1+r.Intn(len(url))]
+	}
+	var before, behind []rRoute
+	add := func(x rRoute) {
+		if r.Intn(2) == 0 {
+			before = append(before, x)
+		} else {
+			behind = append(behind, x)
+		}
+	}
+	for k := 1 + r.Intn(3); k > 0; k-- {
+		switch r.Intn(5) {
+		case 0:
+			add(rRoute{Method: other, Path: url})
+		case 1, 2:
+			add(rRoute{Method: other, Path: cut() + "*"})
+		case 3:
+			add(rRoute{Method: other, Path: url + "/"})
+		default:
+			p := cut()
+			if len(p) > 1 && r.Intn(2) == 0 {
+				p = p[:len(p)-1]
+			}
+			add(rRoute{Method: rt.Method, Path: p})
+		}
+	}
+	// (no structurally identical duplicates: the tables of this property are without re-registrations)
+	seen := map[string]bool{}
+	for _, x := range routes {
+		t, _, _ := rNorm(x.Path)
+		seen[x.Method+" "+rTokKey(t)] = true
+	}
+	keep := func(l []rRoute) []rRoute {
+		var o []rRoute
+		for _, x := range l {
+			t, _, _ := rNorm(x.Path)
+			if k := x.Method + " " + rTokKey(t); !seen[k] {
+				seen[k] = true
+				o = append(o, x)
+			}
+		}
+		return o
+	}
+	before, behind = keep(before), keep(behind)
+	out := append(append(append([]rRoute{}, before...), routes...), behind...)
+	if len(out) > len(c20Handlers) {
+		return routes, idx
+	}
+	return out, idx + len(before)
 }
 
 func c20Shrink(ci any) []any {
